@@ -27,7 +27,7 @@ CONTENT_MODEL = {
 }
 RUBY_PATTERNS = [["rb", "rt"], ["rb", "rp", "rt", "rp"], ["rbc", "rtc"], ["rbc", "rtc", "rtc"]]
 
-MAIN = gen_model.profile(style_density=(0, 5), max_nodes=30, br_styles=True)
+MAIN = gen_model.profile(style_density=(0, 5), max_nodes=30, br_styles=True, text_unicode=True)
 SHRINK = gen_model.case_simplifications("spec")
 
 
@@ -63,8 +63,10 @@ def check_shape(isd, doc, res, source_ids, seen_objects):
       res.fail("shape:region-class", type(region).__name__)
     if len(region) > 1:
       res.fail("shape:region-more-than-one-body", region.get_id())
-    if len(region) == 0 and region.get_style(PROP["ShowBackground"]) is not s.ShowBackgroundType.always:
-      res.fail("shape:empty-region-without-showBackground-always", region.get_id())
+    # "without content": no text and no line break anywhere below the region (a region holding only childless containers has none)
+    has_leaf = any(obs.kind_of(e) in ("text", "br") for e in region.dfs_iterator())
+    if not has_leaf and region.get_style(PROP["ShowBackground"]) is not s.ShowBackgroundType.always:
+      res.fail("shape:empty-region-without-showBackground-always" + ("" if len(region) == 0 else ":childless-containers"), region.get_id())
     if isd.get_region(region.get_id()) is not region:
       res.fail("shape:region-registration", region.get_id())
     stack = [(region, None)]
